@@ -5,6 +5,8 @@ import (
 	"fmt"
 	"strings"
 
+	"github.com/wrgl/wrgl/pkg/verifhook"
+
 	"verif/fw"
 	"verif/mon"
 )
@@ -34,13 +36,40 @@ func c09Run(c *fw.Case, env *fw.Env) *fw.Obs {
 		return o
 	}
 	defer w.close()
-	if err := setupRemoteConfig(w); err != nil {
+	if err := setupRemoteConfig(w, &p); err != nil {
 		o.Status = "inconclusive"
 		o.Note = err.Error()
 		return o
 	}
 	class := netClass(&p)
 	args := netArgs(w, &p)
+	if p.FailAt > 0 {
+		// a first attempt is interrupted by a failing store write on the receiving side; the attempt judged below is
+		// the one the user runs next
+		if p.Op == "push" {
+			w.remoteDB.FailAt = w.remoteDB.Writes + int64(p.FailAt)
+			if p.FailFrom {
+				w.remoteDB.FailAt, w.remoteDB.StopAt = 0, w.remoteDB.Writes+int64(p.FailAt)
+			}
+		} else if p.FailFrom {
+			verifhook.SetFailFrom(int64(p.FailAt))
+		} else {
+			verifhook.SetFailAt(int64(p.FailAt))
+		}
+		first := runNetOp(w, &p, args)
+		verifhook.SetFailAt(0)
+		verifhook.SetFailFrom(0)
+		w.remoteDB.FailAt, w.remoteDB.StopAt = 0, 0
+		o.Ev("first_attempts_with_injected_failure", 1)
+		if first.panicText != "" {
+			o.Violate("panic/"+class+"/store-error", "%v: %s", args, first.panicText)
+			return o
+		}
+		if first.err != nil {
+			o.Ev("first_attempts_interrupted", 1)
+			class += "/retry"
+		}
+	}
 	out := runNetOp(w, &p, args)
 	o.Ev("oracle_evaluations", 1)
 	o.Ev("exchanges_"+p.Op, 1)
@@ -212,6 +241,15 @@ func init() {
 					}
 				}
 			}
+			// fixed: a single-branch fetch from a remote that also has other branches and a tag off that branch
+			for i := 0; i < 6; i++ {
+				l.Add("fetch", netParams{Op: "fetch", N: 8, BaseRows: 4, Branches: 3, Tags: true, Narrow: true, Depth: []int{0, 0, 1}[i%3]}, int64(2100+i))
+			}
+			// fixed: first attempt cut short at an early / late receiver write, then the judged attempt
+			for i, k := range []int{2, 3, 4, 5, 6, 7, 8, 9, 10, 11, 12, 13, 14, 15, 16, 17, 18, 19, 20, 21, 23, 25, 27, 30} {
+				l.Add("fetch", netParams{Op: "fetch", N: 5, BaseRows: 300, Branches: 1, Rel: "new", FailAt: k, FailFrom: i%2 == 0}, int64(2200+i))
+				l.Add("push", netParams{Op: "push", N: 5, BaseRows: 300, Branches: 1, Rel: "new", FailAt: k, FailFrom: i%2 == 1}, int64(2300+i))
+			}
 			for i := 0; i < l.N(60, 4000); i++ {
 				p := netParams{N: 3 + rng.Intn(10), BaseRows: []int{4, 30, 300}[rng.Intn(3)], Branches: 1 + rng.Intn(3), MaxPack: packs[rng.Intn(len(packs))], Tags: rng.Intn(3) == 0}
 				switch rng.Intn(10) {
@@ -230,6 +268,13 @@ func init() {
 					p.Tags = false
 				}
 				p.Force = []string{"", "", "global", "refspec"}[rng.Intn(4)]
+				if p.Op == "fetch" && rng.Intn(4) == 0 {
+					// only the first branch is asked for; the remote's other branches and its tag must not leak in
+					p.Narrow, p.Tags, p.Branches = true, true, 2+rng.Intn(2)
+				}
+				if p.Op != "pull" && rng.Intn(4) == 0 {
+					p.FailAt, p.FailFrom = 1+rng.Intn(40), rng.Intn(2) == 0
+				}
 				if i%25 == 0 && p.Op == "fetch" {
 					p.Slow = true
 					p.BaseRows = 4
